@@ -135,7 +135,7 @@ def make_sem(spec):
     def run_ref(t, log):
         try:
             v, q = Ref(g, t, actions=ref_actions(kind, log, names)).parse()
-            return ('ok', v)
+            return ('ok', norm(v))
         except Fail:
             return ('fail', None)
         except Exception as e:  # noqa: BLE001
